@@ -537,6 +537,29 @@ func checkC20(c CaseC20, info *Info) *Failure {
 	if j, e := j2x.MapToJson(copyMap(c.Value), c.Safe); e != nil || !bytes.Equal(j, wj) {
 		return mism("j2x.MapToJson", string(j), string(wj))
 	}
+	// JSON texts that are no object: a top-level list (NewMapJson documents what it does with it), an empty or blank
+	// text, a text with a byte-order mark - the conversion wrappers are decode-then-encode for these as well
+	if plain, perr := vm.Json(); perr == nil {
+		listDoc := append(append(append([]byte("["), plain...), ','), append(append([]byte(nil), plain...), ']')...)
+		for _, d := range [][]byte{listDoc, []byte(""), []byte(" \n"), []byte("[]"), []byte(`[1,"b",{"k":true}]`), append([]byte("\xef\xbb\xbf"), plain...), append([]byte("  "), plain...)} {
+			cm, cerr := mxj.NewMapJson(d)
+			var lx []byte
+			compErr := cerr
+			if cerr == nil {
+				lx, compErr = cm.Xml()
+			}
+			if m, e := j2x.JsonToMap(d); !eqErr(e, cerr) || (e == nil && !reflect.DeepEqual(m, map[string]interface{}(cm))) {
+				return mism(fmt.Sprintf("j2x.JsonToMap(%q)", d), fmt.Sprint(m, e), fmt.Sprint(cm, cerr))
+			}
+			if x, e := j2x.JsonToXml(d); !eqErr(e, compErr) || (e == nil && !bytes.Equal(x, lx)) {
+				return mism(fmt.Sprintf("j2x.JsonToXml(%q)", d), fmt.Sprint(string(x), e), fmt.Sprint(string(lx), compErr))
+			}
+			var lw bytes.Buffer
+			if e := j2x.JsonToXmlWriter(d, &lw); !eqErr(e, compErr) || (e == nil && !bytes.Equal(lw.Bytes(), lx)) {
+				return mism(fmt.Sprintf("j2x.JsonToXmlWriter(%q)", d), fmt.Sprint(lw.String(), e), fmt.Sprint(string(lx), compErr))
+			}
+		}
+	}
 	wx, wxerr := vm.Xml()
 	if x, e := j2x.JsonToXml(jb); !eqErr(e, wxerr) || (e == nil && !bytes.Equal(x, wx)) {
 		return mism("j2x.JsonToXml", string(x), string(wx))
